@@ -222,6 +222,17 @@ def build(ctx: core.Ctx):
                 [{"in": {"In": pattern[k % len(pattern)]}} for k in range(1, 60)]
             runs.append(dict(_run(f"vol-{n}", "prog", method, steps), variant="plain"))
             n += 1
+    # a timed Hold (Pause) cancelled while the user has also paused (held) the run: the cancelled command's own state must end
+    n = 0
+    for method, other, undo in ((["Base: s", "Hold: 1.5s", "Mark: A", "Wait: 0.5s", "Mark: B", ""], "Pause", "Unpause"),
+                                (["Base: s", "Pause: 1.5s", "Mark: A", "Wait: 0.5s", "Mark: B", ""], "Hold", "Unhold")):
+        for item in range(2, 6):
+            for at in range(3, 9):
+                steps = [{"req": [{"k": "control", "name": "Start"}]}] + [{} for _ in range(at)] + \
+                    [{"req": [{"k": "control", "name": other}]}, {}, {"req": [{"k": "cancel", "item": item}]}, {}, {},
+                     {"req": [{"k": "control", "name": undo}]}] + [{} for _ in range(12)]
+                runs.append(dict(_run(f"cfp-{n}", "prog", method, steps), variant="cancelforce"))
+                n += 1
     nrnd = 600 if ctx.quick else 3000
     for i in range(nrnd):
         method = rnd.choice(METHOD_POOL)
